@@ -431,14 +431,26 @@ def rule_SB(ctx, tier):
         rr.fail("renew:expiry-writes=%d" % len(ws), "expected one write of subscription_expiry in add_update_user", where=r.span)
     for bb, v in ws:
         s = og.show(v)
-        if has_call(v, "checked_add") and has_call(v, "unwrap_or") and "f:subscription_expiry" in s and "f:subscription_duration" in s and "MAX" in s:
-            rr.ok("renewed expiry = checked_add(expiry, duration).unwrap_or(MAX)")
+        sat = has_call(v, "saturating_add") or (has_call(v, "checked_add") and has_call(v, "unwrap_or") and "MAX" in s)
+        if sat and "f:subscription_expiry" in s and "f:subscription_duration" in s:
+            rr.ok("renewed expiry = expiry + duration, saturating at u32::MAX")
         else:
             rr.fail("renew:expiry", "renewal writes subscription_expiry = `%s`" % s[:200], where=r.line_of(bb))
         if variant_fact(ctx, r, bb, "Some", "HashMap", "get_mut"):
             rr.ok("renewal only for an existing user")
         else:
             rr.fail("renew:arm", "subscription_expiry is rewritten outside the existing-user arm", where=r.line_of(bb))
+    # a renewal is all-or-nothing: once a field of the live record is written, the record is persisted before
+    # returning (no fallible step between the in-memory write and DBM::update_user)
+    ups = sites(r, DBM + "update_user")
+    for fld in ("subscription_expiry", "available_slots"):
+        for bb, v in field_writes(ctx, r, fld):
+            if not variant_fact(ctx, r, bb, "Some", "HashMap", "get_mut"):
+                continue
+            if ups and always_reaches(r, [bb], ups):
+                rr.ok("renewal: %s written => update_user follows" % fld)
+            else:
+                rr.fail("renew:memory-write-not-persisted:%s" % fld, "add_update_user writes `%s` of the live in-memory record on a path that can return (e.g. MaxSlotsReached) without persisting it: memory and database disagree and a REJECTED renewal still moves the subscription" % fld, where=r.line_of(bb))
     for bb in sites(r, "teos::gatekeeper::UserInfo::new"):
         a0, a1, a2 = (arg_origin(ctx, r, bb, i) for i in range(3))
         s2 = og.show(a2)
@@ -462,7 +474,7 @@ def rule_SB(ctx, tier):
             rr.ok("registration receipt built from the stored record's fields")
         else:
             rr.fail("register:receipt-fields", "RegistrationReceipt::new is not fed (user_id, available_slots, subscription_start, subscription_expiry) of the stored record", where=r.line_of(bb))
-    rr.require_floor(8, "SB instances")
+    rr.require_floor(10, "SB instances")
     return rr
 
 
